@@ -12,6 +12,7 @@ import (
 	"regexp"
 	"strconv"
 	"strings"
+	"sync"
 
 	connect "github.com/bufbuild/connect-go"
 	"google.golang.org/protobuf/types/known/emptypb"
@@ -167,6 +168,55 @@ func clientCodeForStatus(grpc bool, status int) connect.Code {
 	return connect.CodeOf(err)
 }
 
+// allCodes: every one of the 2^32 code values, on all cores: String() against the closed form
+// (name table or "code_" + decimal) and the text round trip.
+func allCodes(c *Ctx) {
+	names := map[uint32]string{}
+	for name := range definedNames {
+		var code connect.Code
+		_ = code.UnmarshalText([]byte(name))
+		names[uint32(code)] = name
+	}
+	const workers = 16
+	var wg sync.WaitGroup
+	var mu sync.Mutex
+	bad := 0
+	for w := 0; w < workers; w++ {
+		wg.Add(1)
+		go func(w int) {
+			defer wg.Done()
+			lo := uint64(w) << 28
+			hi := lo + 1<<28
+			var buf [24]byte
+			for v := lo; v < hi; v++ {
+				code := connect.Code(uint32(v))
+				want, ok := names[uint32(v)]
+				var text []byte
+				if ok {
+					text = []byte(want)
+				} else {
+					text = append(buf[:0], "code_"...)
+					text = strconv.AppendUint(text, v, 10)
+				}
+				got := code.String()
+				var back connect.Code
+				err := back.UnmarshalText(text)
+				if got != string(text) || err != nil || back != code {
+					mu.Lock()
+					if bad < 5 {
+						c.Fail("code-roundtrip", fmt.Sprintf("code.str %d", v), got, "text form of the code does not round-trip (exhaustive sweep of all 2^32 codes)")
+					}
+					bad++
+					mu.Unlock()
+				}
+			}
+		}(w)
+	}
+	wg.Wait()
+	c.Count("all-2^32-codes")
+	c.Note("all 2^32 code values enumerated: String() against the closed form and UnmarshalText(MarshalText(c)) = c; %d failures", bad)
+}
+
 func streamCodec(c *Ctx) {
 	if replayOp != "" {
 		codecOp(c, replayOp)
@@ -241,12 +291,12 @@ func streamCodec(c *Ctx) {
 	var rec func(prefix []byte, depth int)
 	rec = func(prefix []byte, depth int) {
 		h := hx(prefix)
-		codecOp(c, "pct.enc "+h)
-		codecOp(c, "pct.dec "+h)
-		codecOp(c, "b64.enc "+h)
-		if depth < 3 || len(prefix) < 3 {
+		if depth < 3 {
+			codecOp(c, "pct.enc "+h)
+			codecOp(c, "b64.enc "+h)
 			codecOp(c, "b64.dec "+h)
 		}
+		codecOp(c, "pct.dec "+h) // the decoder's window is 3 bytes: enumerate it completely when thorough
 		if depth == maxLen {
 			return
 		}
@@ -256,7 +306,10 @@ func streamCodec(c *Ctx) {
 	}
 	rec(nil, 0)
 	c.exhaust = true
-	c.Note("byte strings up to length %d enumerated completely for pct.enc/pct.dec/b64.enc/b64.dec; codes 0..%d enumerated", maxLen, maxSeq)
+	c.Note("byte strings up to length 2 enumerated completely for pct.enc/b64.enc/b64.dec and up to length %d for pct.dec; codes 0..%d enumerated", maxLen, maxSeq)
+	if c.Thorough() {
+		allCodes(c)
+	}
 	// long random strings, structured decoder inputs
 	alphabet := "ABCDEFGHIJKLMNOPQRSTUVWXYZabcdefghijklmnopqrstuvwxyz0123456789+/"
 	for i := 0; i < 6000; i++ {
